@@ -40,6 +40,8 @@ def full_trajectory(case, specie='Li', species_kind='Species'):
     diff = np.array(case['diff'], float)
     T, Nd, _ = diff.shape
     symbols = [specie] * Nd
+    if case.get('diff_shift') is not None:
+        diff = diff + np.array(case['diff_shift'], float)  # coordinates given in other periodic images
     coords = diff
     fw = case.get('framework')
     if fw:
